@@ -26,6 +26,10 @@ func funcGroup(f *ssa.Function) []*ssa.Function {
 // (xs[w*q:]), or min(.., len(xs)).  Otherwise the last len(xs) % K elements
 // belong to no piece.
 func ruleChunks(w *World, r *Report, in map[*ssa.Function]bool) {
+	// the storage-reuse and counter-decoding rules travel with the chunk rule: all three
+	// are about loops that must visit every element exactly once
+	ruleInplaceGrow(w, r, in)
+	ruleRadix(w, r, in)
 	r.Rule("CHUNK", "a list that is processed in K pieces of len/K elements (q := len(xs)/K with a constant K; bounds w*q, (w+1)*q) also treats the len%K trailing elements: a remainder, a comparison or difference between a multiple of q and len(xs), a last piece that runs to the end of the list, or min(.., len(xs)); otherwise those elements are silently left out")
 	done := map[*ssa.Function]bool{}
 	for _, f := range w.ModFuncs {
